@@ -178,6 +178,8 @@ def wrapper_line(rng, valid=True):
     body = 'PGHP,1,%d,%d,%d,%d,%d,%d,%d,%s,%s,%s,%d,%02X' % (y, mo, d, h, mi, s, ms, country, region, pss, online,
                                                             rng.randrange(256))
     line = b'$' + body.encode() + b'*' + format(ais.xor_checksum(body.encode()), '02X').encode()
+    if rng.random() < 0.2:
+        line = b'\\' + tag_block(rng) + b'\\' + line          # a wrapper line may carry a tag block like any other sentence
     d_ = {'kind': 'wrapper' if valid else 'badwrapper', 'hex': line.hex()}
     if valid:
         d_['fields'] = [[y, mo, d, h, mi, s, ms * 1000], country, region, pss, online]
@@ -462,11 +464,14 @@ def run_frontend(name, raw_lines, tbq, tmpdir=None, conv=None):
                 per[k].append(c)
                 flat.append(c)
         if exc is None:
-            cells = []
-            for (seq, chan), arr in nq.buffer.items():
-                cs = ','.join('%d=%s' % (i, hx(a.raw)) for i, a in enumerate(arr) if a is not None)
-                cells.append('[%d;%s;%d;%s]' % (seq, cps(chan), len(arr), cs))
-            state = 'B' + ''.join(cells) + 'W' + ('N' if nq.last_wrapper is None else tok_gatehouse_obj(nq.last_wrapper))
+            try:
+                cells = []
+                for (seq, chan), arr in nq.buffer.items():
+                    cs = ','.join('%d=%s' % (i, hx(a.raw)) for i, a in enumerate(arr) if a is not None)
+                    cells.append('[%d;%s;%d;%s]' % (seq, cps(chan), len(arr), cs))
+                state = 'B' + ''.join(cells) + 'W' + ('N' if nq.last_wrapper is None else tok_gatehouse_obj(nq.last_wrapper))
+            except Exception as e:   # noqa: BLE001 -- the buffer no longer has the shape the model describes
+                state = f'unreadable:{type(e).__name__}'
     else:
         raise ValueError(name)
     return {'per': per, 'flat': flat, 'exc': exc, 'state': state}
